@@ -451,48 +451,7 @@ func runProducerLine(toks []string) (string, string) {
 	}
 	p.o.mu.Unlock()
 	if async {
-		reps := p.o.take()
-		perMsg := map[int][]string{}
-		var closeReps []string
-		var noexpIDs []int
-		for _, id := range sentOrder {
-			if ncalls[id] == 0 {
-				noexpIDs = append(noexpIDs, id)
-			}
-		}
-		for _, r := range reps {
-			switch {
-			case r.id >= 0:
-				perMsg[r.id] = append(perMsg[r.id], r.text)
-			case r.text == "noexp" && len(noexpIDs) > 0:
-				perMsg[noexpIDs[0]] = append(perMsg[noexpIDs[0]], r.text)
-				noexpIDs = noexpIDs[1:]
-			default:
-				closeReps = append(closeReps, r.text)
-			}
-		}
-		nsucc := map[int]int{}
-		for _, id := range p.succ {
-			nsucc[id]++
-		}
-		for _, t := range ops {
-			switch {
-			case t == "c":
-				all = append(all, shown{tok: t, reps: closeReps})
-			case strings.HasPrefix(t, "s:"):
-				m, _ := parseMsg(t[2:])
-				pm := p.msgs[m.id]
-				var outs []string
-				for i := 0; i < nsucc[m.id]; i++ {
-					outs = append(outs, fmt.Sprintf("S:%d:%d", pm.Partition, pm.Offset))
-				}
-				for _, e := range p.errs[m.id] {
-					outs = append(outs, fmt.Sprintf("%s:%d", errName(e), pm.Partition))
-				}
-				sort.Strings(outs)
-				all = append(all, shown{tok: t, outs: outs, reps: perMsg[m.id]})
-			}
-		}
+		all = assembleAsync(p, ops, sentOrder, ncalls)
 	} else {
 		k, b := 0, 0
 		var concReps []report
@@ -552,6 +511,55 @@ func runProducerLine(toks []string) (string, string) {
 	}
 	oracleProducer(p, line, ops, all, calls, ncalls)
 	return line, strings.Join(ans, " ")
+}
+
+// assembleAsync builds what an async mock showed, op by op (after its Close): outcomes per message, reporter calls
+// attributed to the message they name (no-expectation reports: to the inputs that met none, in order), the rest to Close.
+func assembleAsync(p *prodRun, ops []string, sentOrder []int, ncalls map[int]int) []shown {
+	var all []shown
+	reps := p.o.take()
+	perMsg := map[int][]string{}
+	var closeReps []string
+	var noexpIDs []int
+	for _, id := range sentOrder {
+		if ncalls[id] == 0 {
+			noexpIDs = append(noexpIDs, id)
+		}
+	}
+	for _, r := range reps {
+		switch {
+		case r.id >= 0:
+			perMsg[r.id] = append(perMsg[r.id], r.text)
+		case r.text == "noexp" && len(noexpIDs) > 0:
+			perMsg[noexpIDs[0]] = append(perMsg[noexpIDs[0]], r.text)
+			noexpIDs = noexpIDs[1:]
+		default:
+			closeReps = append(closeReps, r.text)
+		}
+	}
+	nsucc := map[int]int{}
+	for _, id := range p.succ {
+		nsucc[id]++
+	}
+	for _, t := range ops {
+		switch {
+		case t == "c":
+			all = append(all, shown{tok: t, reps: closeReps})
+		case strings.HasPrefix(t, "s:"):
+			m, _ := parseMsg(t[2:])
+			pm := p.msgs[m.id]
+			var outs []string
+			for i := 0; i < nsucc[m.id]; i++ {
+				outs = append(outs, fmt.Sprintf("S:%d:%d", pm.Partition, pm.Offset))
+			}
+			for _, e := range p.errs[m.id] {
+				outs = append(outs, fmt.Sprintf("%s:%d", errName(e), pm.Partition))
+			}
+			sort.Strings(outs)
+			all = append(all, shown{tok: t, outs: outs, reps: perMsg[m.id]})
+		}
+	}
+	return all
 }
 
 func eqS(a, b []string) bool {
